@@ -196,7 +196,7 @@ def _bin(op, x, y):
     raise Stop("operator %s on symbolic operands" % op)
 
 
-def run(fn, args, stop_before=None, max_steps=4000, call_model=None, stop_after=None, params=None, closure_of=None):
+def run(fn, args, stop_before=None, max_steps=4000, call_model=None, stop_after=None, params=None, closure_of=None, const_of=None):
     """Run fn's MIR from bb0.  args: {local: value}.  Returns (locals dict, end) where end is 'return' or ('stop', bb).
     Raises Stop(reason) when the domain cannot represent a step or an assertion (overflow / bounds check) fails."""
     vals = dict(args)
@@ -286,6 +286,14 @@ def run(fn, args, stop_before=None, max_steps=4000, call_model=None, stop_after=
                 return ()
             if k.get("variant"):
                 return Enum(k["variant"])
+            if "str" in k:
+                return k["str"]
+            if k.get("ty") == "char" and isinstance(k.get("v"), int):
+                return chr(k["v"])
+            if const_of is not None and (k.get("def") or k.get("static")) and k.get("promoted") is None:
+                cv = const_of(k)
+                if cv is not None:
+                    return cv
             pd = k.get("pdefs") or []
             if k.get("promoted") is not None and len(pd) == 1 and pd[0].startswith("variant:"):
                 # promoted `&Enum::Variant` (e.g. the right-hand side of `order != Ordering::Equal`)
@@ -354,7 +362,7 @@ def run(fn, args, stop_before=None, max_steps=4000, call_model=None, stop_after=
             for item in d0.items:
                 env = {"env": argv[1]}
                 byref = (clo.local_ty(1) or "").startswith("&")
-                v2, _ = run(clo, {1: Ref(env, "env") if byref else argv[1], 2: item}, max_steps=max_steps, call_model=call_model, params=params, closure_of=closure_of)
+                v2, _ = run(clo, {1: Ref(env, "env") if byref else argv[1], 2: item}, max_steps=max_steps, call_model=call_model, params=params, closure_of=closure_of, const_of=const_of)
                 r2 = v2.get(0)
                 if name == "flat_map":
                     out.extend(as_iter(r2).items if not isinstance(r2, Slice) else list(r2.items))
